@@ -14,7 +14,8 @@ func leadPath(i int) string {
 	return p
 }
 
-func c03K() int { return 2 + verifTier() }
+// quick and thorough both range over K<=2 paths; thorough adds a third reference and Anon on every path
+func c03K() int { return 2 }
 
 func H_C03_resolve() {
 	impSummaries()
